@@ -297,8 +297,22 @@ def dec_pred(name, *args):
     return uf('decp_' + name, *([DecSort] * len(args) + [z3.BoolSort()]))(*[x[1] for x in args])
 
 
+def dec_concrete(x):
+    """(coefficient, scale) of a concrete abstract-decimal term, else None"""
+    t = x[1]
+    if z3.is_app(t) and t.decl().name() == 'dec_of' and z3.is_int_value(t.arg(0)) and z3.is_int_value(t.arg(1)):
+        return t.arg(0).as_long(), t.arg(1).as_long()
+    return None
+
+
 def dec_fails(name, *args):
-    """uninterpreted failure predicate of a panicking rust_decimal operation"""
+    """uninterpreted failure predicate of a panicking rust_decimal operation (decided for the obviously safe constant cases)"""
+    cs = [dec_concrete(a) for a in args]
+    if name in ('div', 'rem') and cs[-1] is not None:
+        m, sc = cs[-1]
+        if abs(m) >= 10 ** sc: return False         # |divisor| >= 1: neither a zero divisor nor an overflowing quotient
+    if name in ('ln', 'log10') and cs[0] is not None and cs[0][0] > 0: return False
+    if name == 'exp' and cs[0] is not None and abs(cs[0][0]) <= 10 ** cs[0][1]: return False
     return uf('decfail_' + name, *([DecSort] * len(args) + [z3.BoolSort()]))(*[x[1] for x in args])
 
 
@@ -1216,6 +1230,26 @@ def _(e, st, raw, n, a, m):
     return [(T, NONE)]
 
 
+@summary(r'^<std::slice::Iter<.*> as Iterator>::enumerate$|^<std::vec::IntoIter<.*> as Iterator>::enumerate$')
+def _(e, st, raw, n, a, m): return [(T, ('enumer', a[0], 0))]
+
+
+@summary(r'^<(?:std::iter::)?Enumerate<.*> as IntoIterator>::into_iter$')
+def _(e, st, raw, n, a, m): return [(T, a[0])]
+
+
+@summary(r'^<(?:std::iter::)?Enumerate<(.*)> as Iterator>::next$')
+def _(e, st, raw, n, a, m):
+    _, inner, idx = e.rd(st, a[0])
+    kind, items, pos = inner
+    st.steps += 1
+    if pos < len(items):
+        item = items[pos]
+        e.wr(st, a[0], ('enumer', (kind, items, pos + 1), idx + 1))
+        return [(T, some(('tuple', (idx, e.temp_ref(st, item) if kind == 'siter' else item))))]
+    return [(T, NONE)]
+
+
 @summary(r'^<std::ops::Range<(\w+)> as Iterator>::next$')
 def _(e, st, raw, n, a, m):
     ty = m.group(1)
@@ -1304,6 +1338,7 @@ def _(e, st, raw, n, a, m): return [(T, dec_new(a[0], a[1]))]
 def _(e, st, raw, n, a, m):
     op = DEC_PANICKING_BIN[m.group(1)]
     f = dec_fails(op, a[0], a[1])
+    if f is False: return [(T, dec_op(op, a[0], a[1]))]
     return [(f, Panic('rust_decimal %s panics (overflow / division by zero)' % op)), (z3.Not(f), dec_op(op, a[0], a[1]))]
 
 
@@ -1315,6 +1350,7 @@ def _(e, st, raw, n, a, m):
 
     def upd(s2):
         e.wr(s2, a[0], dec_op(op, cur, a[1])); return UNIT
+    if f is False: return [(T, upd)]
     return [(f, Panic('rust_decimal %s_assign panics (overflow / division by zero)' % op)), (z3.Not(f), upd)]
 
 
@@ -1322,18 +1358,19 @@ def _(e, st, raw, n, a, m):
 def _(e, st, raw, n, a, m): return [(T, dec_op('neg', a[0]))]
 
 
-@summary(r'^rust_decimal::Decimal::(abs|floor|ceil|round|trunc|signum|normalize|fract)$')
-def _(e, st, raw, n, a, m): return [(T, dec_op(m.group(1), deref_all(e, st, a[0])))]
+@summary(r'^rust_decimal::Decimal::(abs|floor|ceil|round|trunc|signum|normalize|fract)$|^<rust_decimal::Decimal as (?:rust_decimal::prelude::)?Signed>::(abs|signum)$')
+def _(e, st, raw, n, a, m): return [(T, dec_op(m.group(1) or m.group(2), deref_all(e, st, a[0])))]
 
 
 @summary(r'^rust_decimal::Decimal::(min|max)$')
 def _(e, st, raw, n, a, m): return [(T, dec_op(m.group(1), a[0], a[1]))]
 
 
-@summary(r'^rust_decimal::Decimal::(checked_add|checked_sub|checked_mul|checked_div|checked_rem)$')
+@summary(r'^rust_decimal::(?:Decimal|arithmetic_impls::<impl rust_decimal::Decimal>)::(checked_add|checked_sub|checked_mul|checked_div|checked_rem)$')
 def _(e, st, raw, n, a, m):
     op = m.group(1)[8:]
     f = dec_fails(op, a[0], a[1])
+    if f is False: return [(T, some(dec_op(op, a[0], a[1])))]
     return [(f, NONE), (z3.Not(f), some(dec_op(op, a[0], a[1])))]
 
 
@@ -1347,10 +1384,12 @@ def _(e, st, raw, n, a, m):
     if meth.startswith('checked_'):
         base = meth[8:]
         f = dec_fails(base, *args)
+        if f is False: return [(T, some(dec_op(base, *args)))]
         return [(f, NONE), (z3.Not(f), some(dec_op(base, *args)))]
     if meth in ('ln', 'log10', 'exp', 'powd', 'powi', 'powu', 'powf', 'exp_with_tolerance', 'sin', 'cos', 'tan', 'erf', 'norm_cdf', 'norm_pdf'):
         if not all(isinstance(x, tuple) and x[0] == 'dec' for x in args): raise Unsupported('Decimal::' + meth + ' with non-decimal argument')
         f = dec_fails(meth, *args)
+        if f is False: return [(T, dec_op(meth, *args))]
         return [(f, Panic('rust_decimal %s panics (overflow / outside its domain)' % meth)), (z3.Not(f), dec_op(meth, *args))]
     raise Unsupported('Decimal maths ' + meth)
 
@@ -1363,7 +1402,7 @@ def _(e, st, raw, n, a, m):
     return [(T, some(o) if 'partial_cmp' in n else o)]
 
 
-@summary(r'^<rust_decimal::Decimal as ToPrimitive>::(to_i64|to_i32|to_u32|to_usize|to_u64|to_i128)$')
+@summary(r'^<rust_decimal::Decimal as (?:rust_decimal::prelude::)?ToPrimitive>::(to_i64|to_i32|to_u32|to_usize|to_u64|to_i128)$')
 def _(e, st, raw, n, a, m):
     x = deref_all(e, st, a[0]); ty = m.group(1)[3:]
     f = dec_fails(m.group(1), x)
